@@ -136,8 +136,10 @@ theorem C05_format_injective (pre : String) (j k : Nat)
     (h : pre ++ toString j = pre ++ toString k) : j = k := by
   have h1 : (pre ++ toString j).toList = (pre ++ toString k).toList := by rw [h]
   simp only [String.toList_append, List.append_cancel_left_eq] at h1
-  have h2 : toString j = toString k := String.ext h1
-  exact Nat.repr_inj.mp (by simpa [toString] using h2)
+  have h2 : j.repr.toList = k.repr.toList := h1
+  rw [Nat.toList_repr, Nat.toList_repr] at h2
+  have := congrArg (fun l => Nat.ofDigitChars 10 l 0) h2
+  simpa [Nat.ofDigitChars_ten_toDigits] using this
 
 /-- non-vacuity: `1:D(0); 2:A(0,1); 3:A(1,2)` is well-formed, needs one temporary, and the output
     name is reused before the end -/
